@@ -30,6 +30,7 @@ type Ctx struct {
 
 	modFuncs []*ssa.Function
 	mfx      *mutfx
+	noTables bool
 }
 
 var checks = map[string]*propCheck{}
@@ -122,6 +123,14 @@ func main() {
 			dumpCensus(c)
 			return
 		}
+		if *dump == "selftest" {
+			problems, fired := selfTest()
+			fmt.Println("fired", fired)
+			for _, pr := range problems {
+				fmt.Println("PROBLEM", pr)
+			}
+			return
+		}
 		if *dump == "errs" {
 			c := &Ctx{P: p, R: newReport("dump", "quick", 0)}
 			for _, fn := range c.moduleFuncs() {
@@ -189,6 +198,13 @@ func main() {
 			r.Fatal("expected module packages %s, %s, %s not all loaded", modPath, cmdPath, yqlibPath)
 			return r.Finish(*verif, *evidence, known, cmdline)
 		}
+		if os.Getenv("YQCHECK_NESTED") == "" {
+			problems, fired := selfTest()
+			r.Analysed["selftest_rules_fired_on_fixture"] = fired
+			for _, pr := range problems {
+				r.Fatal("self-test: %s", pr)
+			}
+		}
 		c := &Ctx{P: p, R: r, Tier: *tier}
 		pc.run(c)
 		if *tier == "thorough" && os.Getenv("YQCHECK_NESTED") == "" {
@@ -201,6 +217,9 @@ func main() {
 
 // tables loads the operator and lexer tables once.
 func (c *Ctx) tables() bool {
+	if c.noTables {
+		return false
+	}
 	if c.Ops != nil {
 		return true
 	}
